@@ -3,7 +3,9 @@
 package sim
 
 import (
+	"encoding/binary"
 	"math/rand/v2"
+	"os"
 )
 
 // Tape is the single source of every decision of a simulated run.
@@ -14,6 +16,40 @@ type Tape struct {
 	pos    int
 	rng    *rand.Rand
 	frozen bool
+	// dump, when set, receives every value at the moment it is consumed (crash triage: the tape of a run that kills
+	// its worker process is recovered from this file)
+	dump *os.File
+}
+
+// DumpTo makes the tape append every consumed value to the file (4 bytes little endian each, unbuffered).
+func (t *Tape) DumpTo(path string) error {
+	f, err := os.Create(path)
+	if err != nil {
+		return err
+	}
+	t.dump = f
+	return nil
+}
+
+func (t *Tape) note(v uint32) {
+	if t.dump != nil {
+		var b [4]byte
+		binary.LittleEndian.PutUint32(b[:], v)
+		t.dump.Write(b[:])
+	}
+}
+
+// ReadTapeDump reads a file written through DumpTo.
+func ReadTapeDump(path string) ([]uint32, error) {
+	b, err := os.ReadFile(path)
+	if err != nil {
+		return nil, err
+	}
+	out := make([]uint32, 0, len(b)/4)
+	for i := 0; i+4 <= len(b); i += 4 {
+		out = append(out, binary.LittleEndian.Uint32(b[i:]))
+	}
+	return out, nil
 }
 
 func SplitMix(seed uint64, idx uint64) uint64 {
@@ -41,16 +77,19 @@ func (t *Tape) Choose(n int) int {
 	if t.pos < len(t.Vals) {
 		v := t.Vals[t.pos]
 		t.pos++
+		t.note(v)
 		return int(v % uint32(n))
 	}
 	if t.frozen || t.rng == nil {
 		t.Vals = append(t.Vals, 0)
 		t.pos++
+		t.note(0)
 		return 0
 	}
 	v := uint32(t.rng.IntN(n))
 	t.Vals = append(t.Vals, v)
 	t.pos++
+	t.note(v)
 	return int(v)
 }
 
